@@ -6,7 +6,7 @@ from . import C01 as base
 ID = "C03"
 MODULE = "DrandProofs.C03"
 THEOREMS = ["Drand.Beacon." + t for t in [
-    "c03_admitted", "c03_len_counts_distinct", "c03_threshold", "c03_threshold_reachable", "c03_below_threshold",
+    "c03_admitted", "c03_len_counts_distinct", "c03_threshold", "c03_threshold_reachable", "c03_below_threshold", "c03_own_partial_round",
     "c03_invalid_never_counts", "c03_malformed_never_counts", "c03_nonmember_never_counts", "c03_own_address_never_counts",
     "c03_own_index_never_counts", "c03_out_of_window_never_counts", "c03_wrong_round_never_counts", "c03_wrong_prev_never_counts",
     "c03_duplicate_never_counts", "c03_refused_changes_no_len", "processPartial_cases", "processPartial_admitted",
